@@ -56,6 +56,14 @@ CHECKS.update({
    text="Generated call programs on ordered/unordered, DATA/I-DATA, blocking/non-blocking streams: documented error values, no bytes on the wire beyond accepted writes, every accepted message read exactly once (in order on ordered streams), short-buffer reads keep the message, read deadlines fire at the exact virtual instant without losing or duplicating a message, blocking writes return only after earlier bytes were transmitted.",
    note="One writer at a time per stream (the blocking gate serialises writers with a plain mutex). Arrival instant is known because the simulation is deterministic.", ref="6/C18"),
 })
+CHECKS.update({
+ "C08": dict(level="fault_enumeration", technique="exhaustive enumeration of <=k packet faults over the first 8 packets of each direction sent after the Shutdown call x 6 workload variants (idle, in flight, several windows queued, crossed simultaneous, crossed within one RTT, peer sending + post-call writes), plus rapid-sampled scenarios, in the two-endpoint simulation",
+   text="If Shutdown returns nil the peer's reader obtained exactly the messages accepted before the call, in order, and only then an error; both ends are closed (a side left in SHUTDOWN-ACK-SENT closes when the harness closes its transport after the other side's transport went away), crossed shutdowns both return, post-call writes are rejected and never delivered.",
+   note="exhaustive only for the <=2 (quick) / <=3 (thorough) fault sub-space on the six base workloads. Transport teardown is propagated by the harness 2 s after one side closed.", ref="6/C08"),
+ "C14": dict(level="exploration", technique="property-based testing (rapid): scripted close / read-until-EOF / peer close / reopen cycles on 1-3 streams under generated DATA and RECONFIG faults in the two-endpoint simulation",
+   text="Readers are driven synchronously so the order of data and EOF is observed exactly: every message written before Close is read before EOF, EOF is the terminal error, unrelated streams are unaffected, and after both applications closed and both readers saw EOF the identifier is reopened for up to 4 cycles with exact delivery each time.",
+   note="'Both directions reset' is defined at the API: both applications called Close, both readers saw EOF, both Stream objects report closed.", ref="6/C14"),
+})
 NOT_YET = {}
 props = [json.loads(l) for l in open(os.path.join(V, "properties.jsonl"))]
 checks = []
